@@ -4,6 +4,7 @@ seeded/<id>/patch.diff to /repo, runs bin/check, restores /repo.  Prints one lin
 seed recorded as caught is no longer caught.  Never run while anything else uses /repo."""
 import glob, json, os, re, subprocess, sys
 HERE = os.path.dirname(os.path.dirname(os.path.abspath(__file__)))
+REPO = os.environ.get("RELIC_REPO", "/repo")      # parallel workers re-test on private copies of the repository
 only = sys.argv[1:]
 res = []
 for d in sorted(glob.glob(os.path.join(HERE, "seeded", "c[0-9]*-*"))):
@@ -17,15 +18,15 @@ for d in sorted(glob.glob(os.path.join(HERE, "seeded", "c[0-9]*-*"))):
         if p not in props:
             props.append(p)
     patch = os.path.join(d, "patch.diff")
-    ap = subprocess.run(["git", "-C", "/repo", "apply", "--check", patch], capture_output=True)
-    how = ["git", "-C", "/repo", "apply", patch]
+    ap = subprocess.run(["git", "-C", REPO, "apply", "--check", patch], capture_output=True)
+    how = ["git", "-C", REPO, "apply", patch]
     if ap.returncode != 0:
-        ap2 = subprocess.run(["patch", "-p1", "--dry-run", "--fuzz=3", "-d", "/repo", "-i", patch], capture_output=True)
+        ap2 = subprocess.run(["patch", "-p1", "--dry-run", "--fuzz=3", "-d", REPO, "-i", patch], capture_output=True)
         if ap2.returncode != 0:
             res.append((sid, "does-not-apply", det))
             print(sid, "does-not-apply (the tree has moved on)", flush=True)
             continue
-        how = ["patch", "-p1", "--fuzz=3", "-s", "-d", "/repo", "-i", patch]
+        how = ["patch", "-p1", "--fuzz=3", "-s", "-d", REPO, "-i", patch]
     subprocess.run(how, capture_output=True)
     fired = []
     try:
@@ -37,8 +38,8 @@ for d in sorted(glob.glob(os.path.join(HERE, "seeded", "c[0-9]*-*"))):
             elif r.returncode != 0:
                 fired.append("%s:exit%d" % (p, r.returncode))
     finally:
-        subprocess.run(["git", "-C", "/repo", "checkout", "--", "."], capture_output=True)
-        subprocess.run(["git", "-C", "/repo", "clean", "-f", "-q", "--", "src", "include"], capture_output=True)
+        subprocess.run(["git", "-C", REPO, "checkout", "--", "."], capture_output=True)
+        subprocess.run(["git", "-C", REPO, "clean", "-f", "-q", "--", "src", "include"], capture_output=True)
     status = "caught" if any(":exit" not in f for f in fired) else ("broken" if fired else "quiet")
     res.append((sid, status, " ".join(fired)))
     exp = "missed" if m.get("missed") else "caught"
